@@ -103,8 +103,10 @@ def initPass : List Stmt → Init → Except Err Init
     | .gate d =>
       match bodyPass st.defs d.qargs d.body with
       | .error e => .error e
-      | .ok [] => .error .notImpl
-      | .ok b => initPass ss { st with defs := { d with body := b } :: st.defs }
+      | .ok b =>
+        -- original code: a body without any gate statement is refused as an "opaque" gate
+        if b.isEmpty && !Gen.emptyBodyOk then .error .notImpl
+        else initPass ss { st with defs := { d with body := b } :: st.defs }
     | .qop (.reset _) => .error .notImpl
     | .barrier qs =>
       -- repaired variant: kept for the second pass, which checks its operands
